@@ -30,7 +30,8 @@
  * where the text libc prints for an object pointer (%p) is replaced by `<P>` and positions are corrected accordingly.
  * Direct oracle (X lines): expected text = concatenation over the reference segments of: the literal, `%`, libc's own
  * snprintf of the specification with the correctly typed C value ((int)v for %d, (long)v for %ld, ...), and for %$ an
- * independent implementation of show for Int / Float / String / Array / Tuple / List; when the argument classes allow it
+ * independent implementation of show for Int / Float / String / Array / Tuple / List / Table / Tree / Range / Slice / Box / NULL / objects
+ * without Show / Type objects (a Type object shows as its name, at whatever position: fix 0046a69); when the argument classes allow it
  * also ONE snprintf call with the whole format.  Expected position = start + length; File content = String content;
  * the recorded calls = the reference segments with the arguments in order; FormatError exactly when a specification has
  * no argument or libc itself rejects a specification (its snprintf returns < 0): then the sinks hold exactly what the segments
@@ -382,7 +383,7 @@ static int parse_op(char** tok, int ntok, int* k, OpD* o) {
   return 1;
 }
 
-static size_t n_spec = 0, n_ops = 0, n_toofew = 0, n_show = 0, n_whole = 0, n_rej = 0;
+static size_t n_spec = 0, n_ops = 0, n_toofew = 0, n_show = 0, n_whole = 0, n_rej = 0, n_typeshow = 0;
 
 /* one snprintf with the whole format, possible when the integer-class values fit the 4 free integer registers (putf has 2 named parameters) and the
    doubles the 8 vector registers of the x86-64 calling convention (their relative order is then irrelevant) */
@@ -409,8 +410,7 @@ static void run_P(OpD* op, size_t line, int claim_unchanged, int wide) {
   int ns = parse_fmt(op->fmt.p, op->fmt.n, &segs, wide);
   if (ns < 0) { O("outside-grammar"); return; }
   n_ops++;
-  int typeshow = 0;     /* a Type object is shown by %$: known finding KF-C14-type-show (Type_Show returns a length, not a position) */
-#define SIG(s) (typeshow ? "fmt-type-show" : (s))
+#define SIG(s) (s)    /* (a Type object shown by %$ was known finding KF-C14-type-show until fix 0046a69: an ordinary violation now) */
   for (int k = 0; k < op->nargs; k++) build(op->args[k]);
   var* items = calloc((size_t)op->nargs + 1, sizeof(var));
   for (int k = 0; k < op->nargs; k++) items[k] = op->args[k]->obj;
@@ -433,7 +433,7 @@ static void run_P(OpD* op, size_t line, int claim_unchanged, int wide) {
       char need = need_of(g->conv);
       if (need != '*' && a->kind == 'N') { exp_exc = "ValueError"; stop_seg = s; break; }       /* c_int / c_float / c_str of NULL: type_of refuses */
       if (need != '*' && need != a->kind && !(need == 's' && a->kind == 'Y')) { exp_exc = "ClassError"; stop_seg = s; break; }
-      if (g->conv == '$') { n_show++; if (has_kind(a, 'Y')) typeshow = 1; }
+      if (g->conv == '$') { n_show++; if (has_kind(a, 'Y')) n_typeshow++; }
       buf_reset(&spec); buf_put(&spec, op->fmt.p + g->off, g->len);
       if (ref_spec((const char*)spec.p, g, a, &exp) < 0) { exp_exc = "FormatError"; stop_seg = s; rejected = 1; n_rej++; karg--; break; }
     }
@@ -476,7 +476,6 @@ static void run_P(OpD* op, size_t line, int claim_unchanged, int wide) {
     if (rec_calls[k].vk == 'p') { buf_puts(&canon, "<P>"); buf_puts(&canonF, "<P>"); }
     else { buf_put(&canon, rec_calls[k].out, (size_t)rec_calls[k].ret); buf_put(&canonF, rec_calls[k].out, (size_t)rec_calls[k].ret); }
   }
-  if (!tiled && typeshow) { buf_reset(&canon); buf_put(&canon, valW, strlen(valW)); }   /* known finding: positions jump; show the String as it is */
   Buf hxF = {0}; buf_reset(&hxF); hex_of(canonF.p, canonF.n, &hxF);
   Buf line_ = {0}; buf_reset(&line_);
   Buf cl = {0}; buf_reset(&cl);
@@ -605,8 +604,7 @@ static void run_P(OpD* op, size_t line, int claim_unchanged, int wide) {
     if (same) O("F exc=%s pos=%s out=%s", v_exc_name(excF), posbuf, (char*)hxF.p);
     else {
       Buf a = {0}; buf_reset(&a); hex_of(fb, got, &a);
-      if (typeshow && excF == NULL) O("F exc=none pos=%d out=%s", posF, (char*)a.p);      /* known finding: the File has the whole text, the position is wrong */
-      else O("F exc=%s pos=%d raw=%s", v_exc_name(excF), posF, (char*)a.p);
+      O("F exc=%s pos=%d raw=%s", v_exc_name(excF), posF, (char*)a.p);
       X("sig=%s line=%zu what=File sink received different text or position than the String sink (File pos %d, String pos %d)", SIG("fmt-sinks"), line, posF, posW);
       buf_free(&a);
     }
@@ -742,6 +740,6 @@ int main(int argc, char** argv) {
     } else O("bad-op");
     free(tok); free(copy);
   }
-  I("ops=%zu specs=%zu toofew=%zu show=%zu whole=%zu rejected=%zu", n_ops, n_spec, n_toofew, n_show, n_whole, n_rej);
+  I("ops=%zu specs=%zu toofew=%zu show=%zu whole=%zu rejected=%zu typeshow=%zu", n_ops, n_spec, n_toofew, n_show, n_whole, n_rej, n_typeshow);
   return 0;
 }
